@@ -17,7 +17,8 @@ RULE = ("(a) matcher histories: for every selector of Ssel and every sequence of
         "record is unchanged; states = distinct canonical matcher states (names bound in the matcher namespace + last record "
         "class). (b) adapters: 12 reader configurations x all record sequences <=3 over 4 record values x selectors x {text, Selector, "
         "CompiledSelector}: list(reader(selector=s)) == [r for r in reader() if fresh.match(r)] on obs incl. position/class of an "
-        "exception. non-trivial = history longer than 1 / non-empty sequence")
+        "exception. (c) selector pairs: every (first, second) of (raising programs + Ssel) x 13 probes on the same record object, the second "
+        "result against the reference meaning. non-trivial = history longer than 1 / non-empty sequence")
 
 SSEL = (
     selgrammar.GENS
@@ -66,9 +67,49 @@ def matcher_canon(sel, engine):
     return ["C", sorted(k for k in sel.ns if k in ("r", "Type"))]
 
 
+RAISERS = ["Type.string < 5", "Type.varint < 'a'", "5 > Type.string", "Type.string + 1 == 2", "Type.uri.filename < 1", "r.n < 'a'", "r.s + 1 == 2", "r.l[0] == 'a'",
+           "r.n / r.m == 1", "any(x < 1 for x in r.l)", "field_regex(r, ['n'], 'a')", "lower(r.s) < 1", "net.ipaddress(r.s) == r.ip", "r.ip in net.ipnetwork('bogus')"]
+AFTER = ["Type.string == 'a'", "Type.varint > 2", "'ab' in Type.string", "Type.uri.filename == 'a.txt'", "Type.net.ipaddress == '1.2.3.4'", "r.s == 'a'", "r.n == 1",
+         "any(x == 'a' for x in r.l)", "field_contains(r, ['s', 't'], ['a'])", "field_equals(r, Type.string, ['a'])", "lower(r.s) == 'a'", "r.sub.s == 'a'", "name(r) == 'sel/rec'"]
+
+
+def run_pair(case):
+    """Two different selectors, one after the other, on the same record object (the first may raise and the caller carries on):
+    the second result must be what the reference meaning says, whatever the first one left behind anywhere in the process."""
+    from flow.record.selector import CompiledSelector, Selector
+
+    h = jhash(case)
+    e1, e2, i = case["first"], case["second"], case["rec"]
+    rec = hist_records()[i]
+    viol = []
+    outs = []
+    for engine, cls in (("interpreted", Selector), ("compiled", CompiledSelector)):
+        before = obs(rec)
+        try:
+            first = result_of(cls(e1), rec)
+        except Exception:  # noqa: BLE001  (constructor refuses the program)
+            first = ["e", "ctor"]
+        try:
+            second = result_of(cls(e2), rec)
+        except Exception:  # noqa: BLE001
+            outs.append("ctor-raises")
+            continue
+        if obs(rec) != before:
+            viol.append(("C10:match-modified-record:%s" % engine, case, {"first": e1, "second": e2, "record": i}))
+        ref = refsel.evaluate(e2, rec)
+        if ref[0] == "value" and (engine == "interpreted" or not refsel.type_in_container(e2)) and refsel.in_language(e2, compiled=(engine == "compiled")) \
+                and (second[0] != "v" or second[1] != ref[1]):
+            viol.append(("C10:wrong-after-other-selector:%s:first-%s" % (engine, "raised" if first[0] == "e" else "value"), case,
+                         {"first": e1, "first_result": first, "second": e2, "got": second, "reference": ref[1], "record": i}))
+        outs.append("pair:%s:%s" % (engine[0], "first-raised" if first[0] == "e" else "first-value"))
+    return {"ev": 4, "h": h, "nt": True, "out": outs, "viol": viol, "count": {"match_events": 4}}
+
+
 def run_case(case):
     if case["kind"] == "hist":
         return run_hist(case)
+    if case["kind"] == "pair":
+        return run_pair(case)
     return run_adapter(case)
 
 
@@ -285,6 +326,10 @@ def cases(tier):
         for k in range(1, L + 1):
             for hist in itertools.product(range(nrec), repeat=k):
                 yield {"kind": "hist", "expr": expr, "hist": list(hist)}
+    for e1 in RAISERS + list(SSEL)[:: (1 if tier == "thorough" else 4)]:
+        for e2 in AFTER:
+            for i in range(nrec):
+                yield {"kind": "pair", "first": e1, "second": e2, "rec": i}
     for adapter, alphabet in ADAPTERS.items():
         for k in range(0, 4):
             for seq in itertools.product(alphabet, repeat=k):
